@@ -2,11 +2,11 @@
    [image rho rs rs'] says that the cluster list of rs' is the cluster list of rs with every
    cluster c replaced by rho c (any number of code points or bytes each). Proved so far for
    the operations whose results are characterised cluster-wise: Chars and its variants, Insert,
-   and the three line-alignment functions. *)
+   the three line-alignment functions and CollapseSpace. *)
 From Coq Require Import List Bool ZArith Lia.
 Import ListNotations.
 From Rosed Require Import Base.Res Base.ListX Base.Utf8 Gem.Segment Gem.GString Model.Manip Model.Table Model.Options Model.Editor Model.Ops
-     Check.Common Proofs.SeamP Proofs.C04P Proofs.C13P Proofs.C03P.
+     Base.Str Check.Common Proofs.SeamP Proofs.C04P Proofs.C13P Proofs.C03P Proofs.C07Q.
 Open Scope Z_scope.
 
 Theorem C03_chars : forall (C : Classifier) (U : Upper) rho rs rs' o ref s e, scalars rs -> scalars rs' -> image rho rs rs' ->
@@ -43,3 +43,16 @@ Print Assumptions C03_align_center.
 Theorem C03_count : forall (C : Classifier) rho rs rs', image rho rs rs' -> zlen (clusters rs') = zlen (clusters rs).
 Proof. intros C. exact image_len. Qed.
 Print Assumptions C03_count.
+
+(* CollapseSpace: if the clusters of text' are those of text replaced one for one by a
+   substitution that keeps white-space clusters white-space and others not, then the clusters
+   of the collapsed text' are those of the collapsed text under the same substitution (the
+   single spaces that remain are left alone) *)
+Theorem C03_collapse_space : forall (C : Classifier) (K : ClassifierOk) (U : Upper) rho text sep r text' r',
+  let t0 := if gis_empty sep then text else replace_all text sep [SP] in
+  let t0' := if gis_empty sep then text' else replace_all text' sep [SP] in
+  (forall c, wsc (rho c) = wsc c) -> clusters t0' = map rho (clusters t0) ->
+  safe_text t0 -> safe_text t0' -> collapse_space text sep = Ok r -> collapse_space text' sep = Ok r' ->
+  clusters r' = map (fun c => if is_sp c then c else rho c) (clusters r).
+Proof. intros C K U. exact collapse_space_image. Qed.
+Print Assumptions C03_collapse_space.
